@@ -5281,7 +5281,7 @@ static hawk_nde_t* parse_primary_xarg (hawk_t* hawk, const hawk_loc_t* xloc)
 		if (HAWK_UNLIKELY(!xargvidx))
 		{
 			ADJERR_LOC (hawk, xloc);
-			return HAWK_NULL;
+			goto oops;
 		}
 
 		xargvidx->type = HAWK_NDE_XARGVIDX;
